@@ -308,7 +308,14 @@ class C12(ConnProp):
             ops = reqgen.schedule(rng, stream, style, fds=True)
             if rng.random() < 0.5:
                 ops.append([0, 10, rng.choice([0, 1, 2, 5])])      # the read that hits EOF
-            out.append(self.mk(51200, stream, ops, {'kind': style}))
+            meta = {'kind': style}
+            if rng.random() < 0.3:
+                # reads whose completed requests stay queued (op 13: no pop_parsed_request) before a later read pops them
+                # all: descriptors must stay with the request whose completion they accompanied, whatever else is queued
+                ops = [[13] + o[1:] if o[0] == 0 and rng.random() < 0.6 else o for o in ops]
+                ops.append([0, 10, 0])
+                meta = {'kind': style + '+held'}
+            out.append(self.mk(51200, stream, ops, meta))
         for _ in range(150 if tier == 'quick' else 10000):
             stream, kinds = small_stream(rng)
             ops = reqgen.schedule(rng, stream, 'random', fds=True, buf=32)
@@ -330,7 +337,7 @@ class C12(ConnProp):
                     break
                 f = parse_rd(ln)
                 by_i.setdefault(int(f['i']), []).append(f)
-            if not bad:
+            if not bad and not any(op[0] == 13 for op in ops):      # held reads: decided by the model comparison
                 for i, op in enumerate(ops):
                     for f in by_i.get(i, []):
                         if 'rd' not in f:
@@ -360,7 +367,7 @@ class C12(ConnProp):
         return v
 
     def nontrivial(self, tree, meta, impl_lines):
-        nf = sum(min(o[2], 253) for o in tree[4] if o[0] == 0)
+        nf = sum(min(o[2], 253) for o in tree[4] if o[0] in (0, 13))
         if nf >= 2 and any(' | REQ' in l for l in impl_lines):
             return (bytes(tree[3]), repr(tree[4]))
         return None
